@@ -66,6 +66,13 @@ theorem C15_script_skip_wins_timeout (tcs : List TC) (outs : List Out)
       ∃ o, outs[i]? = some o ∧ o.status = .code (scriptSkip tcs) :=
   Scrut.Exec.execScript_skip_wins_timeout tcs outs h
 
+/-- **C15** (Cram, since fix 384369f): … and when the shell was killed after that test case -/
+theorem C15_script_skip_wins_killed (tcs : List TC) (outs : List Out)
+    (h : ∃ o ∈ outs, o.status = .code (scriptSkip tcs)) :
+    ∃ i, execScript tcs .unknown outs = some (.skipped i) ∧
+      ∃ o, outs[i]? = some o ∧ o.status = .code (scriptSkip tcs) :=
+  Scrut.Exec.execScript_skip_wins_unknown tcs outs h
+
 theorem C15_script_timeout_without_skip (tcs : List TC) (outs : List Out)
     (h : ∀ o ∈ outs, o.status ≠ .code (scriptSkip tcs)) :
     execScript tcs .timeout outs = some (.timeout true 0 [⟨.timeout, false, false⟩]) :=
